@@ -8,20 +8,25 @@
 //   - every struct field selected through a pointer (p.f, p.a.b, p.items[i].f -
 //     the object is the innermost pointer on the path, the field is the rest of
 //     the path); write = assignment / inc-dec target, element assignment or
-//     delete on a map/slice field, read otherwise. Fields of type sync.Mutex /
+//     delete on a map/slice field, read otherwise; an assignment through a pointer (*p = v)
+//     writes the object p points to. Fields of type sync.Mutex /
 //     sync.RWMutex are the synchronisation itself and are not probed;
 //   - every package-level variable of the package (read; write when assigned,
-//     element-assigned, or when a method is called on it - a shared hasher,
-//     cache or pool mutates itself);
+//     element-assigned, or when a method is called on it or on a parameter of a
+//     function of the same package it was passed for - a shared hasher, cache or pool
+//     mutates itself);
+//   - every method call through a pointer to an object of another package (a *big.Int or
+//     hash.Hash held in a field): the call is the access to that object, a write unless the
+//     method is a known reader;
 //   - local variables bound to a map- or slice-typed field or package variable
 //     (fees := f.fees): using the local later is an access to that location.
 //
 // A probe never changes behaviour: the object expression is evaluated inside a
 // closure whose panic (nil path) is swallowed by the shim.
 //
-// Packages: the module root (package bt; fees.go additionally gets package
-// sync replaced by the vsync shim and time.Now by vsync.Now), bscript and
-// bscript/interpreter.
+// Packages: the module root (package bt), bscript and bscript/interpreter. A file
+// that imports package sync (fees.go) additionally gets it replaced by the vsync
+// shim, and time.Now by vsync.Now.
 //
 // usage: vinstr <repo> <workdir>   (writes <workdir>/overlay.json)
 package main
@@ -83,6 +88,12 @@ type instr struct {
 	info *types.Info
 	pkg  *types.Package
 	n    int
+	// paramAlias: parameter object -> package-level variables (pointers / interfaces / channels)
+	// that some call site of the same package passes for it, directly or through another parameter
+	paramAlias map[types.Object]map[string]bool
+	// writesParam: function -> indexes of slice / map parameters whose elements it assigns
+	// (directly, through copy, or by handing them to a function that does)
+	writesParam map[*types.Func]map[int]bool
 }
 
 func instrumentPackage(dir, work, tag string, overlay map[string]string) (int, int, error) {
@@ -125,12 +136,21 @@ func instrumentPackage(dir, work, tag string, overlay map[string]string) (int, i
 	if firstErr != nil {
 		return 0, 0, fmt.Errorf("type check: %v", firstErr)
 	}
-	in := &instr{fset: fset, info: info, pkg: pkg}
+	in := &instr{fset: fset, info: info, pkg: pkg, paramAlias: map[types.Object]map[string]bool{}, writesParam: map[*types.Func]map[int]bool{}}
+	in.computeParamAliases(files)
+	in.computeWritesParam(files)
 	done := 0
 	for i, af := range files {
 		before := in.n
 		in.file(af)
-		swap := tag == "bt" && filepath.Base(paths[i]) == "fees.go"
+		// a file that uses package sync gets the shim instead (scheduling points and
+		// happens-before edges at its lock operations): fees.go today, any file tomorrow
+		swap := false
+		for _, im := range af.Imports {
+			if p, _ := strconv.Unquote(im.Path.Value); p == "sync" {
+				swap = true
+			}
+		}
 		if in.n == before && !swap {
 			continue
 		}
@@ -249,6 +269,11 @@ func pure(e ast.Expr) bool {
 	return ok
 }
 
+// readerMethods: methods of foreign types (math/big above all) that only read their receiver.
+var readerMethods = map[string]bool{"Cmp": true, "CmpAbs": true, "Sign": true, "Bytes": true, "BitLen": true, "Bit": true, "Int64": true, "Uint64": true,
+	"IsInt64": true, "IsUint64": true, "String": true, "Text": true, "Append": true, "Format": true, "FillBytes": true, "TrailingZeroBits": true, "ProbablyPrime": true,
+	"Len": true, "Cap": true, "Size": true, "BlockSize": true, "Error": true, "Unwrap": true}
+
 var errorType = types.Universe.Lookup("error").Type().Underlying().(*types.Interface)
 
 // mutableRef: the variable refers to state a callee could change (not an error value).
@@ -268,6 +293,200 @@ func (in *instr) mutableRef(id *ast.Ident) bool {
 		return true
 	}
 	return false
+}
+
+// computeParamAliases follows package-level pointers / interfaces / channels through calls to
+// functions and methods of the same package: argument j of a call is bound to parameter j of the
+// callee (fixpoint over parameters passed on to further calls).
+func (in *instr) computeParamAliases(files []*ast.File) {
+	params := map[*types.Func][]types.Object{}
+	for _, af := range files {
+		for _, d := range af.Decls {
+			fd, ok := d.(*ast.FuncDecl)
+			if !ok {
+				continue
+			}
+			fo, ok := in.info.Defs[fd.Name].(*types.Func)
+			if !ok {
+				continue
+			}
+			var ps []types.Object
+			for _, f := range fd.Type.Params.List {
+				if len(f.Names) == 0 {
+					ps = append(ps, nil)
+				}
+				for _, id := range f.Names {
+					ps = append(ps, in.info.Defs[id])
+				}
+			}
+			params[fo] = ps
+		}
+	}
+	callee := func(c *ast.CallExpr) *types.Func {
+		switch f := c.Fun.(type) {
+		case *ast.Ident:
+			fo, _ := in.info.Uses[f].(*types.Func)
+			return fo
+		case *ast.SelectorExpr:
+			fo, _ := in.info.Uses[f.Sel].(*types.Func)
+			return fo
+		}
+		return nil
+	}
+	for changed := true; changed; {
+		changed = false
+		for _, af := range files {
+			ast.Inspect(af, func(n ast.Node) bool {
+				c, ok := n.(*ast.CallExpr)
+				if !ok {
+					return true
+				}
+				fo := callee(c)
+				ps, known := params[fo]
+				if fo == nil || !known {
+					return true
+				}
+				for j, arg := range c.Args {
+					id, ok := arg.(*ast.Ident)
+					if !ok || j >= len(ps) || ps[j] == nil {
+						continue
+					}
+					var vars []string
+					if in.pkgVar(id) && in.mutableRef(id) {
+						vars = append(vars, id.Name)
+					} else if o := in.info.Uses[id]; o != nil {
+						for v := range in.paramAlias[o] {
+							vars = append(vars, v)
+						}
+					}
+					for _, v := range vars {
+						if in.paramAlias[ps[j]] == nil {
+							in.paramAlias[ps[j]] = map[string]bool{}
+						}
+						if !in.paramAlias[ps[j]][v] {
+							in.paramAlias[ps[j]][v] = true
+							changed = true
+						}
+					}
+				}
+				return true
+			})
+		}
+	}
+}
+
+func (in *instr) calleeOf(c *ast.CallExpr) *types.Func {
+	switch f := c.Fun.(type) {
+	case *ast.Ident:
+		fo, _ := in.info.Uses[f].(*types.Func)
+		return fo
+	case *ast.SelectorExpr:
+		fo, _ := in.info.Uses[f.Sel].(*types.Func)
+		return fo
+	}
+	return nil
+}
+
+// computeWritesParam finds, for the functions of this package, the slice / map parameters whose
+// elements they assign: p[i] = v, p[i]++, copy(p, …), or p handed to a function that does.
+func (in *instr) computeWritesParam(files []*ast.File) {
+	type fn struct {
+		obj    *types.Func
+		decl   *ast.FuncDecl
+		params map[types.Object]int
+	}
+	var fns []fn
+	for _, af := range files {
+		for _, d := range af.Decls {
+			fd, ok := d.(*ast.FuncDecl)
+			if !ok || fd.Body == nil {
+				continue
+			}
+			fo, ok := in.info.Defs[fd.Name].(*types.Func)
+			if !ok {
+				continue
+			}
+			ps := map[types.Object]int{}
+			j := 0
+			for _, f := range fd.Type.Params.List {
+				if len(f.Names) == 0 {
+					j++
+				}
+				for _, id := range f.Names {
+					if o := in.info.Defs[id]; o != nil && isRefType(o.Type()) {
+						ps[o] = j
+					}
+					j++
+				}
+			}
+			fns = append(fns, fn{fo, fd, ps})
+		}
+	}
+	mark := func(f fn, e ast.Expr) bool {
+		for {
+			switch x := e.(type) {
+			case *ast.IndexExpr:
+				e = x.X
+				continue
+			case *ast.SliceExpr:
+				e = x.X
+				continue
+			case *ast.ParenExpr:
+				e = x.X
+				continue
+			}
+			break
+		}
+		id, ok := e.(*ast.Ident)
+		if !ok {
+			return false
+		}
+		j, isParam := f.params[in.info.Uses[id]]
+		if !isParam {
+			return false
+		}
+		if in.writesParam[f.obj] == nil {
+			in.writesParam[f.obj] = map[int]bool{}
+		}
+		if in.writesParam[f.obj][j] {
+			return false
+		}
+		in.writesParam[f.obj][j] = true
+		return true
+	}
+	for changed := true; changed; {
+		changed = false
+		for _, f := range fns {
+			ast.Inspect(f.decl.Body, func(n ast.Node) bool {
+				switch x := n.(type) {
+				case *ast.AssignStmt:
+					for _, l := range x.Lhs {
+						if _, isIdx := l.(*ast.IndexExpr); isIdx && mark(f, l) {
+							changed = true
+						}
+					}
+				case *ast.IncDecStmt:
+					if _, isIdx := x.X.(*ast.IndexExpr); isIdx && mark(f, x.X) {
+						changed = true
+					}
+				case *ast.CallExpr:
+					if id, ok := x.Fun.(*ast.Ident); ok && id.Name == "copy" && len(x.Args) == 2 {
+						if _, isBuiltin := in.info.Uses[id].(*types.Builtin); isBuiltin && mark(f, x.Args[0]) {
+							changed = true
+						}
+					}
+					if fo := in.calleeOf(x); fo != nil {
+						for j := range in.writesParam[fo] {
+							if j < len(x.Args) && mark(f, x.Args[j]) {
+								changed = true
+							}
+						}
+					}
+				}
+				return true
+			})
+		}
+	}
 }
 
 func (in *instr) pkgVar(id *ast.Ident) bool {
@@ -381,6 +600,7 @@ func (in *instr) function(fd *ast.FuncDecl) {
 			}
 		}
 		writes := map[ast.Expr]bool{}
+		var derefTargets []ast.Expr // p in "*p = v": the object p points to is written, not p
 		markWrite := func(e ast.Expr) {
 			for {
 				switch x := e.(type) {
@@ -391,8 +611,8 @@ func (in *instr) function(fd *ast.FuncDecl) {
 					e = x.X
 					continue
 				case *ast.StarExpr:
-					e = x.X
-					continue
+					derefTargets = append(derefTargets, x.X)
+					return
 				case *ast.SliceExpr:
 					e = x.X
 					continue
@@ -486,17 +706,67 @@ func (in *instr) function(fd *ast.FuncDecl) {
 									if a, ok := aliases[o]; ok {
 										add(probe{obj: a.obj, field: a.field, write: true})
 									}
+									for v := range in.paramAlias[o] {
+										add(probe{field: v, write: true})
+									}
 								}
 							}
 						}
 					}
-					// ... and so may a function that is handed a package-level variable referring to
-					// a stateful object (pointer, non-error interface, channel)
-					for _, arg := range x.Args {
-						if id, ok := arg.(*ast.Ident); ok && in.pkgVar(id) && in.mutableRef(id) {
-							add(probe{field: id.Name, write: true})
+					// a method called through a pointer to an object of ANOTHER package (a *big.Int, a
+					// hash.Hash held in a field): its code carries no probes, so the call itself is the
+					// access to that object - a write unless the method is a known reader
+					if se, ok := x.Fun.(*ast.SelectorExpr); ok {
+						if sel := in.info.Selections[se]; sel != nil && sel.Kind() == types.MethodVal {
+							if tv, known := in.info.Types[se.X]; known {
+								if pt, isPtr := tv.Type.Underlying().(*types.Pointer); isPtr {
+									if nt, isNamed := pt.Elem().(*types.Named); isNamed && nt.Obj().Pkg() != nil && !strings.HasPrefix(nt.Obj().Pkg().Path(), "github.com/libsv/go-bt/v2") && nt.Obj().Pkg() != in.pkg && !isSyncType(nt) {
+										if _, isIdent := se.X.(*ast.Ident); !(isIdent && in.pkgVar(se.X.(*ast.Ident))) && pure(se.X) && inScope(se.X) {
+											txt := in.text(se.X)
+											exprOf[txt] = se.X
+											add(probe{obj: txt, field: "(object of " + nt.Obj().Pkg().Name() + "." + nt.Obj().Name() + ")", write: !readerMethods[se.Sel.Name]})
+										}
+									}
+								}
+							}
 						}
 					}
+					// a map / slice field handed to a function of this package that assigns elements of
+					// that parameter (reverseInPlace(p.buf)), or to the builtin copy as destination, is written
+					{
+						var written []ast.Expr
+						if id, ok := x.Fun.(*ast.Ident); ok && id.Name == "copy" && len(x.Args) == 2 {
+							if _, isBuiltin := in.info.Uses[id].(*types.Builtin); isBuiltin {
+								written = append(written, x.Args[0])
+							}
+						}
+						if fo := in.calleeOf(x); fo != nil {
+							for j := range in.writesParam[fo] {
+								if j < len(x.Args) {
+									written = append(written, x.Args[j])
+								}
+							}
+						}
+						for _, w := range written {
+							for {
+								if sl, ok := w.(*ast.SliceExpr); ok {
+									w = sl.X
+									continue
+								}
+								break
+							}
+							if se, ok := w.(*ast.SelectorExpr); ok {
+								if ob, root, f, ok := in.location(se); ok && (ob == "" || inScope(root)) {
+									if ob != "" {
+										exprOf[ob] = root
+									}
+									add(probe{obj: ob, field: f, write: true})
+								}
+							}
+						}
+					}
+					// (a package-level variable handed to a function of this package is followed into
+					// that function: see paramAlias; handed to another package it counts as read)
 				case *ast.Ident:
 					if defining[x] {
 						break
@@ -532,6 +802,17 @@ func (in *instr) function(fd *ast.FuncDecl) {
 		case *ast.TypeSwitchStmt, *ast.BlockStmt, *ast.SelectStmt, *ast.LabeledStmt:
 		default:
 			walk(s)
+		}
+		for _, p := range derefTargets {
+			if pure(p) && inScope(p) {
+				if tv, known := in.info.Types[p]; known {
+					if _, isPtr := tv.Type.Underlying().(*types.Pointer); isPtr {
+						txt := in.text(p)
+						exprOf[txt] = p
+						add(probe{obj: txt, field: "(whole object)", write: true})
+					}
+				}
+			}
 		}
 		for _, f := range newAliases {
 			f()
